@@ -32,6 +32,8 @@ def run(sid, tier, props=None):
             if q.returncode == 1 and viol:
                 status = "CAUGHT"
                 out_lines.append(f"{prop}: {viol[0][:200]} [{time.time() - t0:.0f}s]")
+                mechs = sorted({v.split("#", 1)[1].strip().split(": ")[0][:90] for v in viol if "#" in v})
+                out_lines.append(f"{prop} mechanisms: " + "; ".join(mechs[:12]))
             else:
                 out_lines.append(f"{prop}: rc={q.returncode} [{time.time() - t0:.0f}s]")
         if props is None:
